@@ -113,9 +113,16 @@ Definition PTRACE_EVENT_FORK : Z := 1.  Definition PTRACE_EVENT_VFORK : Z := 2.
 Definition PTRACE_EVENT_CLONE : Z := 3. Definition PTRACE_EVENT_EXEC : Z := 4.
 Definition PTRACE_EVENT_SECCOMP : Z := 7.
 
-(** ptraceHandle.handle.  [setopt_ok] and [trap_ok] are the outcomes of the two
-    fallible ptrace interactions (ESRCH once the tracee is gone). *)
-Definition handle (st : hstate) (pgid pid : Z) (w : N) (setopt_ok trap_ok : bool) : hout :=
+(** outcomes of the two fallible ptrace interactions: PTRACE_SETOPTIONS on a new
+    task, and handleTrap (GETREGSET, Handler.Handle, SETREGS for a ban).  Once
+    the tracee was killed every request answers ESRCH ("gone"). *)
+Inductive sres := SoOk | SoGone | SoErr.
+Inductive tres := TrOk      (* allowed, or banned and the registers were rewritten (or the tracee is gone by then) *)
+                | TrGone    (* GETREGSET answered ESRCH *)
+                | TrKill    (* the handler's verdict is kill *)
+                | TrErr.    (* any other failure *)
+
+Definition handle (st : hstate) (pgid pid : Z) (w : N) (so : sres) (tr : tres) : hout :=
   let out s e er f st' rq := {| o_status := s; o_exit := e; o_err := er; o_finished := f; o_state := st'; o_reqs := rq |} in
   if ws_exited w then
     let st' := {| h_execved := h_execved st; h_traced := zdel pid (h_traced st) |} in
@@ -135,15 +142,20 @@ Definition handle (st : hstate) (pgid pid : Z) (w : N) (setopt_ok trap_ok : bool
     let fresh := negb (zmem pid (h_traced st)) in
     let st1 := if fresh then {| h_execved := h_execved st; h_traced := pid :: h_traced st |} else st in
     let r1 := if fresh then [ReqSetOptions] else [] in
-    if fresh && negb setopt_ok then out RunnerError 0%Z true false st1 r1
+    if fresh && match so with SoGone => true | _ => false end then
+      (* the new task is already gone: forget it, its death is reported by wait4 *)
+      out Normal 0%Z false false {| h_execved := h_execved st; h_traced := zdel pid (h_traced st) |} r1
+    else if fresh && match so with SoErr => true | _ => false end then out RunnerError 0%Z true false st1 r1
     else
       let ss := ws_stop_signal w in
       if Z.eqb ss SIGTRAP then
         let cause := ws_trap_cause w in
         if Z.eqb cause PTRACE_EVENT_SECCOMP then
           if h_execved st1 then
-            if trap_ok then out Normal 0%Z false false st1 (r1 ++ [ReqHandleTrap; ReqCont 0%Z])
-            else out Disallowed 0%Z true false st1 (r1 ++ [ReqHandleTrap])
+            match tr with
+            | TrOk | TrGone => out Normal 0%Z false false st1 (r1 ++ [ReqHandleTrap; ReqCont 0%Z])
+            | TrKill | TrErr => out Disallowed 0%Z true false st1 (r1 ++ [ReqHandleTrap])
+            end
           else out Normal 0%Z false false st1 (r1 ++ [ReqCont 0%Z])
         else if Z.eqb cause PTRACE_EVENT_EXEC then
           out Normal 0%Z false false {| h_execved := true; h_traced := h_traced st1 |} (r1 ++ [ReqCont 0%Z])
@@ -159,11 +171,11 @@ Definition handle (st : hstate) (pgid pid : Z) (w : N) (setopt_ok trap_ok : bool
 (** one iteration of Tracer.trace after wait4 returned (pid, w, rusage):
     [inl r] = the run returns r; [inr st'] = loop again *)
 Definition trace_step (st : hstate) (pgid pid : Z) (w : N) (time tlimit : Z) (mem mlimit : N)
-           (setopt_ok trap_ok : bool) : (result + hstate) * list preq :=
+           (so : sres) (tr : tres) : (result + hstate) * list preq :=
   let us := if Z.eqb pid pgid then usage_status time tlimit mem mlimit else Normal in
   match us with
   | Normal =>
-      let o := handle st pgid pid w setopt_ok trap_ok in
+      let o := handle st pgid pid w so tr in
       if o_finished o || negb (N.eqb (status_code (o_status o)) 1)
       then (inl {| r_status := o_status o; r_exit := o_exit o; r_err := o_err o |}, o_reqs o)
       else (inr (o_state o), o_reqs o)
